@@ -753,7 +753,7 @@ Theorem pct_escape_invisible a b z :
   no_pending a = true -> b < 256 -> (b <> 37 \/ starts_hex2 z = false) ->
   D (a ++ pct_byte b ++ z) = D (a ++ b :: z).
 Proof.
-  intros Hp Hb Hz. rewrite !D_app by exact Hp. f_equal.
+  intros Hp Hb Hz. rewrite (D_app a Hp (pct_byte b ++ z)), (D_app a Hp (b :: z)). f_equal.
   rewrite (D_pct_byte c Hl1) by exact Hb.
   destruct (N.eq_dec b 37) as [->|Hne].
   - destruct Hz as [Hz|Hz]; [congruence|]. rewrite (D_nohex c) by exact Hz. reflexivity.
@@ -773,4 +773,591 @@ Proof.
     + rewrite (D_pct_byte c Hl1) by exact Hb1. f_equal. apply IH; assumption.
     + cbn [app]. rewrite (D_ne c b) by exact Hb37. f_equal. apply IH; assumption.
 Qed.
+(* the side condition on [a] is exact: a pending escape swallows what follows *)
+Lemma no_pending_cons z t : z <> 37 -> no_pending t = true -> no_pending (z :: t) = true.
+Proof.
+  intros Hz Ht. destruct t as [|w [|v t]]; cbn [no_pending] in *.
+  - replace (z =? 37) with false by lia. reflexivity.
+  - rewrite Ht. replace (z =? 37) with false by lia. reflexivity.
+  - exact Ht.
+Qed.
+
+Lemma D_pending_len a : no_pending a = false -> (length (D (a ++ [52; 49]%N)) < length (D a) + 2)%nat.
+Proof.
+  induction a as [a IH] using list_len_ind. intros Hp.
+  assert (H52 : is_hex 52 = true) by reflexivity. assert (H49 : is_hex 49 = true) by reflexivity.
+  destruct a as [|x [|y [|z t]]].
+  - discriminate Hp.
+  - cbn [no_pending] in Hp. assert (x = 37) by lia. subst x. cbn [app].
+    rewrite (D_hex c Hl1) by assumption. rewrite (D_nohex c) by reflexivity. cbn [DecodePercentEncoded length]. lia.
+  - cbn [no_pending] in Hp. cbn [app]. destruct (N.eq_dec x 37) as [->|Hx].
+    + change (37 =? 37) with true in Hp. cbn [andb] in Hp. destruct (is_hex y) eqn:Ey.
+      * rewrite (D_hex c Hl1) by assumption. rewrite (D_nohex c [y]) by reflexivity.
+        assert (y <> 37) by (intros ->; discriminate Ey).
+        rewrite !(D_ne c) by (try assumption; discriminate). cbn [DecodePercentEncoded length]. lia.
+      * assert (y = 37) by (cbn [negb] in Hp; rewrite andb_true_r in Hp; lia). subst y.
+        rewrite (D_nohex c (37 :: _)) by reflexivity. rewrite (D_hex c Hl1) by assumption.
+        rewrite (D_nohex c [37]) by reflexivity. rewrite (D_nohex c []) by reflexivity.
+        cbn [DecodePercentEncoded length]. lia.
+    + replace (x =? 37) with false in Hp by lia. cbn [andb negb] in Hp. rewrite andb_true_r in Hp.
+      assert (y = 37) by lia. subst y.
+      rewrite !(D_ne c x) by exact Hx. rewrite (D_hex c Hl1) by assumption. rewrite (D_nohex c []) by reflexivity.
+      cbn [DecodePercentEncoded length]. lia.
+  - destruct (N.eq_dec x 37) as [->|Hx].
+    + destruct (is_hex y && is_hex z) eqn:E.
+      * apply andb_true_iff in E. destruct E as [Ey Ez]. cbn [app].
+        rewrite !(D_hex c Hl1) by assumption. cbn [length].
+        assert (Ht : no_pending t = false).
+        { destruct (no_pending t) eqn:Et; [|reflexivity]. exfalso.
+          assert (y <> 37) by (intros ->; discriminate Ey). assert (z <> 37) by (intros ->; discriminate Ez).
+          apply (no_pending_cons z) in Et; [|assumption]. apply (no_pending_cons y) in Et; [|assumption].
+          change (no_pending (37 :: y :: z :: t)) with (no_pending (y :: z :: t)) in Hp. congruence. }
+        specialize (IH t). cbn [length] in IH. specialize (IH ltac:(lia) Ht). lia.
+      * cbn [app]. rewrite !(D_nohex c) by exact E. cbn [length].
+        specialize (IH (y :: z :: t)). cbn [length app] in IH.
+        change (no_pending (37 :: y :: z :: t)) with (no_pending (y :: z :: t)) in Hp.
+        specialize (IH ltac:(lia) Hp). lia.
+    + change ((x :: y :: z :: t) ++ [52; 49]) with (x :: (y :: z :: t) ++ [52; 49]).
+      rewrite !(D_ne c x) by exact Hx. cbn [length].
+      change (no_pending (x :: y :: z :: t)) with (no_pending (y :: z :: t)) in Hp.
+      specialize (IH (y :: z :: t)). cbn [length] in IH. specialize (IH ltac:(lia) Hp). lia.
+Qed.
+
+Theorem no_pending_exact a :
+  no_pending a = true <-> forall x, D (a ++ x) = D a ++ D x.
+Proof.
+  split; [apply D_app|]. intros H. destruct (no_pending a) eqn:E; [reflexivity|]. exfalso.
+  pose proof (D_pending_len a E) as L. rewrite (H [52; 49]), app_length in L.
+  rewrite !(D_ne c) in L by discriminate. cbn [DecodePercentEncoded length] in L. lia.
+Qed.
 End Escapes.
+
+(* ================================================================== *)
+(* 5. laxHostParsing only changes failures                             *)
+(* ================================================================== *)
+(* the fields the host parser reads, apart from c_lax *)
+Definition host_cfg_agree (c1 c2 : cfg) : Prop :=
+  c_report c1 = c_report c2 /\ c_fail c1 = c_fail c2 /\ c_latin1 c1 = c_latin1 c2 /\
+  c_pre c1 = c_pre c2 /\ c_post c1 = c_post c2.
+
+Section Lax.
+Variable idna_raw : str -> str * bool.
+Variables c1 c2 : cfg.
+Hypothesis Hag : host_cfg_agree c1 c2.
+Hypothesis Hstrict : c_lax c1 = false.
+
+Lemma handleError_agree u t f : handleError c1 u t f = handleError c2 u t f.
+Proof. destruct Hag as [Hr [Hf _]]. unfold handleError. rewrite Hr, Hf. reflexivity. Qed.
+
+Lemma herr_agree {A} u t f (k1 k2 : url -> res A) :
+  (forall u, k1 u = k2 u) -> herr c1 u t f k1 = herr c2 u t f k2.
+Proof.
+  intros H. unfold herr. rewrite handleError_agree.
+  destruct (handleError c2 u t f) as [u1 [e|]]; [reflexivity|apply H].
+Qed.
+
+Lemma herr_impl {A} u t f (k1 k2 : url -> res A) u' r :
+  (forall u, k1 u = Ok u' r -> k2 u = Ok u' r) ->
+  herr c1 u t f k1 = Ok u' r -> herr c2 u t f k2 = Ok u' r.
+Proof.
+  intros H. unfold herr. rewrite handleError_agree.
+  destruct (handleError c2 u t f) as [u1 [e|]]; [discriminate|apply H].
+Qed.
+
+Lemma parseIPv4Number_agree u p : parseIPv4Number c1 u p = parseIPv4Number c2 u p.
+Proof. unfold parseIPv4Number. destruct p; [|reflexivity]. rewrite handleError_agree. reflexivity. Qed.
+
+Lemma ipv4_numbers_agree parts : forall u acc, ipv4_numbers c1 u parts acc = ipv4_numbers c2 u parts acc.
+Proof.
+  induction parts as [|p rest IH]; intros u acc; [reflexivity|].
+  cbn [ipv4_numbers]. rewrite parseIPv4Number_agree.
+  destruct (parseIPv4Number c2 u p) as [u1 [n ve|rg]].
+  - destruct ve; [|apply IH]. apply herr_agree. intros u2. apply IH.
+  - apply herr_agree. intros u2. apply IH.
+Qed.
+
+Lemma range_warn_agree ns : forall u (k1 k2 : url -> res str),
+  (forall u, k1 u = k2 u) -> ipv4_range_warn c1 u ns k1 = ipv4_range_warn c2 u ns k2.
+Proof.
+  induction ns as [|n ns IH]; intros u k1 k2 H; cbn [ipv4_range_warn]; [apply H|].
+  destruct (255 <? n); [|apply IH; exact H].
+  apply herr_agree. intros u1. apply IH. exact H.
+Qed.
+
+Lemma m_tail_agree u ns : IPv4Proofs.m_tail c1 u ns = IPv4Proofs.m_tail c2 u ns.
+Proof.
+  unfold IPv4Proofs.m_tail. cbv zeta. destruct (existsb _ _); [apply herr_agree; reflexivity|].
+  destruct (last_opt ns) as [lastn|]; [|reflexivity].
+  destruct (_ <=? lastn); [apply herr_agree; reflexivity|reflexivity].
+Qed.
+
+Lemma after_empty_agree u parts : IPv4Proofs.m_after_empty c1 u parts = IPv4Proofs.m_after_empty c2 u parts.
+Proof.
+  unfold IPv4Proofs.m_after_empty.
+  assert (G : forall u, match ipv4_numbers c1 u parts [] with
+                        | Er u e => Er u e
+                        | Ok u numbers => ipv4_range_warn c1 u numbers (fun u => IPv4Proofs.m_tail c1 u numbers)
+                        end =
+                        match ipv4_numbers c2 u parts [] with
+                        | Er u e => Er u e
+                        | Ok u numbers => ipv4_range_warn c2 u numbers (fun u => IPv4Proofs.m_tail c2 u numbers)
+                        end).
+  { intros u1. rewrite ipv4_numbers_agree. destruct (ipv4_numbers c2 u1 parts []) as [u2 ns|]; [|reflexivity].
+    apply range_warn_agree. intros u3. apply m_tail_agree. }
+  destruct (4 <? len parts)%Z; [apply herr_agree; exact G|apply G].
+Qed.
+
+Lemma parseIPv4_cfg u s : parseIPv4 c1 u s = parseIPv4 c2 u s.
+Proof.
+  rewrite !IPv4Proofs.parseIPv4_unfold. cbv zeta.
+  destruct (last_opt (split 46 s)) as [[|x t]|]; try apply after_empty_agree.
+  apply herr_agree. intros u1. apply after_empty_agree.
+Qed.
+
+Lemma parseIPv6_cfg u s : parseIPv6 c1 u s = parseIPv6 c2 u s.
+Proof.
+  unfold parseIPv6. destruct (ipv6_parse (runes s)); [reflexivity|apply herr_agree; reflexivity].
+Qed.
+
+Lemma D_cfg s : DecodePercentEncoded c1 s = DecodePercentEncoded c2 s.
+Proof.
+  destruct Hag as [_ [_ [Hl _]]].
+  induction s as [s IH] using list_len_ind.
+  destruct s as [|b s]; [reflexivity|]. cbn [DecodePercentEncoded]. rewrite Hl.
+  destruct (b =? 37).
+  - destruct s as [|h [|l s]]; [reflexivity|reflexivity|].
+    destruct (isHexDigit h && isHexDigit l).
+    + f_equal. apply IH. cbn [length]. lia.
+    + f_equal. apply (IH (h :: l :: s)). cbn [length]. lia.
+  - f_equal. apply IH. cbn [length]. lia.
+Qed.
+
+Lemma percentEncodeRune_cfg r tr : percentEncodeRune c1 r tr = percentEncodeRune c2 r tr.
+Proof. destruct Hag as [_ [_ [Hl _]]]. unfold percentEncodeRune. rewrite Hl. reflexivity. Qed.
+
+Lemma opaque_loop_lax input l : forall u out u' r,
+  opaque_loop c1 u input l out = Ok u' r -> opaque_loop c2 u input l out = Ok u' r.
+Proof.
+  induction l as [|ch rest IH]; intros u out u' r H; [exact H|].
+  cbn [opaque_loop] in *. cbv zeta in *.
+  assert (K : forall u0,
+    (if negb (isURLCodePoint ch) && negb (ch =? 37)
+     then fun k => herr c1 u0 InvalidURLUnit false k else fun k => k u0)
+      (fun u1 => (if (ch =? 37) && invalid_pct (ch :: rest)
+                  then fun k => herr c1 u1 InvalidURLUnit false k else fun k => k u1)
+                   (fun u2 => opaque_loop c1 u2 input rest (out ++ percentEncodeRune c1 ch (Some pes_C0)))) = Ok u' r ->
+    (if negb (isURLCodePoint ch) && negb (ch =? 37)
+     then fun k => herr c2 u0 InvalidURLUnit false k else fun k => k u0)
+      (fun u1 => (if (ch =? 37) && invalid_pct (ch :: rest)
+                  then fun k => herr c2 u1 InvalidURLUnit false k else fun k => k u1)
+                   (fun u2 => opaque_loop c2 u2 input rest (out ++ percentEncodeRune c2 ch (Some pes_C0)))) = Ok u' r).
+  { intros u0.
+    assert (K2 : forall u1,
+      (if (ch =? 37) && invalid_pct (ch :: rest)
+       then fun k => herr c1 u1 InvalidURLUnit false k else fun k => k u1)
+        (fun u2 => opaque_loop c1 u2 input rest (out ++ percentEncodeRune c1 ch (Some pes_C0))) = Ok u' r ->
+      (if (ch =? 37) && invalid_pct (ch :: rest)
+       then fun k => herr c2 u1 InvalidURLUnit false k else fun k => k u1)
+        (fun u2 => opaque_loop c2 u2 input rest (out ++ percentEncodeRune c2 ch (Some pes_C0))) = Ok u' r).
+    { intros u1. rewrite <- percentEncodeRune_cfg.
+      destruct ((ch =? 37) && invalid_pct (ch :: rest)); [|apply IH].
+      apply herr_impl. intros u2. apply IH. }
+    destruct (negb (isURLCodePoint ch) && negb (ch =? 37)); [|apply K2].
+    apply herr_impl. exact K2. }
+  destruct (isForbiddenHost ch); [|apply K; exact H].
+  rewrite Hstrict in H. rewrite herr_true in H. discriminate.
+Qed.
+
+Lemma ToASCII_lax d a : ToASCII idna_raw c1 d = Some a -> ToASCII idna_raw c2 d = Some a.
+Proof.
+  destruct Hag as [_ [_ [Hl _]]]. unfold ToASCII. destruct d as [|b t]; [auto|].
+  rewrite Hl, Hstrict.
+  destruct (idna_raw _) as [a' err].
+  destruct (err && containsOnlyASCIIOrMiscAndNoPunycode _); [auto|].
+  destruct err; cbn [andb negb]; [discriminate|auto].
+Qed.
+
+Theorem lax_conservative u h b u' r :
+  parseHost idna_raw c1 u h b = Ok u' r -> parseHost idna_raw c2 u h b = Ok u' r.
+Proof.
+  destruct Hag as [_ [_ [_ [Hpre Hpost]]]].
+  unfold parseHost. rewrite <- Hpre, <- Hpost. rewrite Hstrict.
+  destruct (apply_hostfun (c_pre c1) h) as [|x t]; [auto|].
+  destruct (N.eq_dec x 91) as [->|Hx].
+  - destruct (negb (has_suffix [93] (91 :: t))).
+    + rewrite herr_true. discriminate.
+    + rewrite parseIPv6_cfg. auto.
+  - rewrite !(match_bracket x _ _ Hx). destruct b.
+    + unfold parseOpaqueHost. apply opaque_loop_lax.
+    + rewrite <- D_cfg. set (d := DecodePercentEncoded c1 (x :: t)).
+      destruct (valid_utf8 d); cbn [negb]; [|rewrite herr_true; discriminate].
+      destruct (ToASCII idna_raw c1 d) as [a|] eqn:Ea; [|rewrite herr_true; discriminate].
+      rewrite (ToASCII_lax d a Ea).
+      destruct (existsb isForbiddenDomain (runes a)); [rewrite herr_true; discriminate|].
+      rewrite !endsInANumber_url. rewrite parseIPv4_cfg. auto.
+Qed.
+End Lax.
+
+(* ================================================================== *)
+(* 6. The two variations of Theorem 3                                  *)
+(* ================================================================== *)
+Lemma is_hex_lower x : is_hex (ascii_lower x) = is_hex x.
+Proof. unfold is_hex, is_digit, ascii_lower, is_upper. destruct ((65 <=? x) && (x <=? 90)) eqn:E; lia. Qed.
+
+Lemma hex_val_lower x : hex_val (ascii_lower x) = hex_val x.
+Proof.
+  unfold ascii_lower, is_upper. destruct ((65 <=? x) && (x <=? 90)) eqn:E; [|reflexivity].
+  unfold hex_val, is_digit. decide_ifs; lia.
+Qed.
+
+Lemma ascii_lower_eq_37 b : ascii_lower b = 37 -> b = 37.
+Proof. unfold ascii_lower, is_upper. destruct ((65 <=? b) && (b <=? 90)) eqn:E; lia. Qed.
+
+Lemma ascii_lower_eq_91 b : ascii_lower b = 91 -> b = 91.
+Proof. unfold ascii_lower, is_upper. destruct ((65 <=? b) && (b <=? 90)) eqn:E; lia. Qed.
+
+Lemma starts_hex2_case t1 t2 : str_lower t1 = str_lower t2 -> starts_hex2 t1 = starts_hex2 t2.
+Proof.
+  intros H. destruct t1 as [|x1 [|y1 s1]], t2 as [|x2 [|y2 s2]]; try discriminate H; try reflexivity.
+  cbn [str_lower map] in H. inversion H as [[Hx Hy Hs]].
+  cbn [starts_hex2]. rewrite <- (is_hex_lower x1), <- (is_hex_lower y1), Hx, Hy, !is_hex_lower. reflexivity.
+Qed.
+
+Section Variations.
+Variable idna_raw : str -> str * bool.
+Variable c : cfg.
+Hypothesis Hlax : c_lax c = false.
+Hypothesis Hl1 : c_latin1 c = false.
+Hypothesis Hpre : c_pre c = HF_none.
+Hypothesis Hpost : c_post c = HF_none.
+Hypothesis H2 : oracle_case_invariant idna_raw.
+Notation D := (DecodePercentEncoded c).
+
+(* ASCII case of the raw input (including the case of hex digits in escapes) *)
+Lemma D_case h1 : forall h2, str_lower h1 = str_lower h2 -> str_lower (D h1) = str_lower (D h2).
+Proof.
+  induction h1 as [h1 IH] using list_len_ind. intros h2 H.
+  destruct h1 as [|b1 t1].
+  - symmetry in H. apply str_lower_nil in H. subst h2. reflexivity.
+  - destruct h2 as [|b2 t2]; [discriminate H|].
+    cbn [str_lower map] in H. inversion H as [[Hb Ht]]. fold (str_lower t1) in Ht. fold (str_lower t2) in Ht.
+    destruct (N.eq_dec b1 37) as [->|Hne].
+    + symmetry in Hb. apply ascii_lower_eq_37 in Hb. subst b2.
+      pose proof (starts_hex2_case t1 t2 Ht) as Hh.
+      destruct (starts_hex2 t1) eqn:E1.
+      * symmetry in Hh. apply starts_hex2_inv in E1, Hh.
+        destruct E1 as [x1 [y1 [s1 [-> [Hx1 Hy1]]]]]. destruct Hh as [x2 [y2 [s2 [-> [Hx2 Hy2]]]]].
+        cbn [str_lower map] in Ht. inversion Ht as [[Hx Hy Hs]].
+        rewrite !(D_hex c Hl1) by assumption. cbn [str_lower map]. f_equal.
+        -- rewrite <- (hex_val_lower x1), <- (hex_val_lower y1), Hx, Hy, !hex_val_lower. reflexivity.
+        -- apply IH; [cbn [length]; lia|exact Hs].
+      * rewrite !(D_nohex c) by congruence. cbn [str_lower map]. f_equal.
+        apply IH; [cbn [length]; lia|exact Ht].
+    + assert (Hne2 : b2 <> 37) by (intros ->; apply Hne; apply ascii_lower_eq_37; exact Hb).
+      rewrite (D_ne c b1), (D_ne c b2) by assumption. cbn [str_lower map]. f_equal; [exact Hb|].
+      apply IH; [cbn [length]; lia|exact Ht].
+Qed.
+
+Corollary host_case_invariant u h1 h2 :
+  not_bracket h1 -> str_lower h1 = str_lower h2 ->
+  parseHost idna_raw c u h1 false = parseHost idna_raw c u h2 false.
+Proof.
+  intros Hb Hs. apply (host_spelling_invariant idna_raw c Hlax Hl1 Hpre Hpost H2); [exact Hb| |apply D_case; exact Hs].
+  intros t E. subst h2. destruct h1 as [|b t1]; [discriminate Hs|].
+  cbn [str_lower map] in Hs. injection Hs as Hb1 Ht1. change (ascii_lower 91) with 91 in Hb1.
+  apply ascii_lower_eq_91 in Hb1. subst b. exact (Hb t1 eq_refl).
+Qed.
+
+(* one byte replaced by its escape *)
+Corollary host_escape_invariant u a b z :
+  no_pending a = true -> b < 256 -> (b <> 37 \/ starts_hex2 z = false) ->
+  not_bracket (a ++ b :: z) ->
+  parseHost idna_raw c u (a ++ pct_byte b ++ z) false = parseHost idna_raw c u (a ++ b :: z) false.
+Proof.
+  intros Hp Hb Hz Hnb. apply (host_spelling_invariant idna_raw c Hlax Hl1 Hpre Hpost H2); [|exact Hnb|].
+  - intros t E. destruct a as [|x a'].
+    + cbn [app] in E. discriminate E.
+    + cbn [app] in E. inversion E. subst x. apply (Hnb (a' ++ b :: z)). reflexivity.
+  - f_equal. apply pct_escape_invisible; assumption.
+Qed.
+
+(* any set of positions of a %-free input replaced by escapes *)
+Corollary host_escape_mask_invariant u mask h :
+  Forall (fun b => b < 256) h -> ~ In 37 h -> not_bracket h ->
+  parseHost idna_raw c u (esc mask h) false = parseHost idna_raw c u h false.
+Proof.
+  intros Hb Hn Hnb. apply (host_spelling_invariant idna_raw c Hlax Hl1 Hpre Hpost H2); [|exact Hnb|].
+  - intros t E. destruct h as [|x h']; [destruct mask; discriminate E|].
+    destruct mask as [|m ms]; [cbn [esc] in E; exact (Hnb _ E)|].
+    cbn [esc] in E. destruct m; cbn [app pct_byte] in E; [discriminate E|].
+    inversion E. subst x. exact (Hnb h' eq_refl).
+  - f_equal. apply pct_escape_mask; assumption.
+Qed.
+End Variations.
+
+Definition with_lax (c : cfg) (b : bool) : cfg :=
+  {| c_report := c_report c; c_fail := c_fail c; c_lax := b; c_collapse := c_collapse c;
+     c_acceptInvalid := c_acceptInvalid c; c_pre := c_pre c; c_post := c_post c; c_singlePct := c_singlePct c;
+     c_allowPathNonBase := c_allowPathNonBase c; c_skipDrive := c_skipDrive c; c_special := c_special c;
+     c_skipTrailSlash := c_skipTrailSlash c; c_latin1 := c_latin1 c; c_pathSet := c_pathSet c;
+     c_squerySet := c_squerySet c; c_querySet := c_querySet c; c_sfragSet := c_sfragSet c;
+     c_fragSet := c_fragSet c; c_skipEq := c_skipEq c |}.
+
+Corollary lax_conservative_with_lax idna_raw c u h b u' r :
+  parseHost idna_raw (with_lax c false) u h b = Ok u' r ->
+  parseHost idna_raw (with_lax c true) u h b = Ok u' r.
+Proof. apply lax_conservative; [repeat split|reflexivity]. Qed.
+
+(* ================================================================== *)
+(* 7. Closed statements, examples, refutations                         *)
+(* ================================================================== *)
+Print Assumptions valid_utf8_lower.
+Print Assumptions fallback_test_case.
+Print Assumptions fallback_test_no_ace.
+Print Assumptions ascii_host_exact.
+Print Assumptions ascii_host_ipv4.
+Print Assumptions ascii_host_forbidden.
+Print Assumptions domain_output_clean.
+Print Assumptions host_spelling_invariant.
+Print Assumptions host_case_invariant.
+Print Assumptions host_escape_invariant.
+Print Assumptions host_escape_mask_invariant.
+Print Assumptions pct_escape_invisible.
+Print Assumptions pct_escape_mask.
+Print Assumptions no_pending_exact.
+Print Assumptions file_localhost_parse.
+Print Assumptions file_localhost_empty.
+Print Assumptions lax_conservative.
+Print Assumptions lax_conservative_with_lax.
+
+(* the default parser satisfies the configuration premises *)
+Example default_cfg_premises :
+  c_lax default_cfg = false /\ c_latin1 default_cfg = false /\
+  c_pre default_cfg = HF_none /\ c_post default_cfg = HF_none.
+Proof. repeat split. Qed.
+
+(* ---------- toy oracles ---------- *)
+(* lower-cases ASCII, replaces every other byte by "x": satisfies H1, H2 and H3 together *)
+Definition toy_byte (x : N) : N := if x <? 128 then x else 120.
+Definition toy (s : str) : str * bool := (map toy_byte (str_lower s), false).
+(* hostile: leaves the case alone *)
+Definition hostile_upper (s : str) : str * bool := (s, false).
+(* hostile: always reports an error and returns nothing *)
+Definition hostile_empty (s : str) : str * bool := ([], true).
+
+Example toy_H1 : oracle_ascii_transparent toy.
+Proof.
+  intros d _ Ha _. unfold toy. cbn [fst]. apply str_lower_ascii in Ha.
+  induction Ha as [|b s Hb Hs IH]; [reflexivity|]. cbn [map]. rewrite IH.
+  unfold toy_byte. replace (b <? 128) with true by lia. reflexivity.
+Qed.
+Example toy_H2 : oracle_case_invariant toy.
+Proof. intros d1 d2 _ _ H. unfold toy. rewrite H. reflexivity. Qed.
+Example toy_H3 : oracle_lower_ascii_output toy.
+Proof.
+  intros d _ _ _. unfold toy, lower_ascii. cbn [fst]. unfold str_lower. rewrite map_map.
+  apply Forall_forall. intros y Hy. apply in_map_iff in Hy. destruct Hy as [b [<- _]].
+  unfold toy_byte. destruct (ascii_lower b <? 128) eqn:E.
+  - split; [lia|apply ascii_lower_not_upper].
+  - split; [lia|reflexivity].
+Qed.
+
+Definition u0 : url := empty_url [].
+Definition h_ex : str := [69;120;37;52;49;109;112;108;101;46;67;79;77].        (* "Ex%41mple.COM" *)
+Definition h_ex2 : str := [37;52;53;88;65;77;80;76;69;46;99;111;109].          (* "%45XAMPLE.com" *)
+Definition r_ex : str := [101;120;97;109;112;108;101;46;99;111;109].           (* "example.com" *)
+
+Example ascii_host_exact_ex :
+  parseHost toy default_cfg u0 h_ex false = Ok u0 r_ex.
+Proof.
+  apply (ascii_host_exact toy default_cfg eq_refl eq_refl eq_refl eq_refl toy_H1 u0 h_ex).
+  - discriminate.
+  - apply asciib_spec. reflexivity.
+  - reflexivity.
+  - reflexivity.
+  - reflexivity.
+Qed.
+
+(* "0x7F.1" ends in a number: the IPv4 parser decides *)
+Example ascii_host_ipv4_ex :
+  parseHost toy default_cfg u0 [48;88;55;70;46;49] false = parseIPv4 default_cfg u0 [48;120;55;102;46;49]
+  /\ parseIPv4 default_cfg u0 [48;120;55;102;46;49] = Ok u0 [49;50;55;46;48;46;48;46;49].
+Proof.
+  split; [|reflexivity].
+  apply (ascii_host_ipv4 toy default_cfg eq_refl eq_refl eq_refl eq_refl toy_H1 u0 [48;88;55;70;46;49]).
+  - discriminate.
+  - apply asciib_spec. reflexivity.
+  - reflexivity.
+  - reflexivity.
+  - reflexivity.
+Qed.
+
+(* "a%20B": a forbidden domain code point after decoding *)
+Example ascii_host_forbidden_ex :
+  exists u' e, parseHost toy default_cfg u0 [97;37;50;48;66] false = Er u' e
+               /\ e_type e = DomainInvalidCodePoint /\ e_failure e = true.
+Proof.
+  apply (ascii_host_forbidden toy default_cfg eq_refl eq_refl eq_refl eq_refl toy_H1 u0 [97;37;50;48;66]).
+  - discriminate.
+  - apply asciib_spec. reflexivity.
+  - reflexivity.
+  - intros t E. discriminate E.
+  - reflexivity.
+Qed.
+
+(* the wrapper ignores the oracle's error flag on such inputs: same result with an oracle that always errs *)
+Definition toy_err (s : str) : str * bool := (fst (toy s), true).
+Example toy_err_H1 : oracle_ascii_transparent toy_err.
+Proof. intros d H1 H2 H3. exact (toy_H1 d H1 H2 H3). Qed.
+Example ascii_host_exact_err_ex : parseHost toy_err default_cfg u0 h_ex false = Ok u0 r_ex.
+Proof.
+  apply (ascii_host_exact toy_err default_cfg eq_refl eq_refl eq_refl eq_refl toy_err_H1 u0 h_ex).
+  - discriminate.
+  - apply asciib_spec. reflexivity.
+  - reflexivity.
+  - reflexivity.
+  - reflexivity.
+Qed.
+(* ... but not when a label starts with "xn--": the ACE premise of Theorem 1 is needed *)
+Lemma ascii_host_exact_ace_needed :
+  exists h, DecodePercentEncoded default_cfg h <> [] /\ ascii (DecodePercentEncoded default_cfg h) /\
+    existsb PS.forbidden_domain_cp (str_lower (DecodePercentEncoded default_cfg h)) = false /\
+    S4.ends_in_a_number (str_lower (DecodePercentEncoded default_cfg h)) = false /\
+    parseHost toy_err default_cfg u0 h false <> Ok u0 (str_lower (DecodePercentEncoded default_cfg h)).
+Proof.
+  exists [88;78;45;45;97].   (* "XN--a" *)
+  split; [discriminate|]. split; [apply asciib_spec; reflexivity|]. split; [reflexivity|]. split; [reflexivity|].
+  vm_compute. discriminate.
+Qed.
+
+(* H1 is needed *)
+Lemma ascii_host_exact_needs_H1 :
+  exists h, DecodePercentEncoded default_cfg h <> [] /\ ascii (DecodePercentEncoded default_cfg h) /\
+    no_ace (DecodePercentEncoded default_cfg h) = true /\
+    existsb PS.forbidden_domain_cp (str_lower (DecodePercentEncoded default_cfg h)) = false /\
+    S4.ends_in_a_number (str_lower (DecodePercentEncoded default_cfg h)) = false /\
+    parseHost hostile_upper default_cfg u0 h false <> Ok u0 (str_lower (DecodePercentEncoded default_cfg h)).
+Proof.
+  exists [65]. split; [discriminate|]. split; [apply asciib_spec; reflexivity|].
+  split; [reflexivity|]. split; [reflexivity|]. split; [reflexivity|]. vm_compute. discriminate.
+Qed.
+
+Example domain_output_clean_ex : clean r_ex.
+Proof.
+  apply (domain_output_clean toy default_cfg eq_refl eq_refl eq_refl eq_refl toy_H3 u0 h_ex u0 r_ex).
+  - reflexivity.
+  - intros t E. discriminate E.
+Qed.
+
+(* H3 is needed *)
+Lemma domain_output_clean_needs_H3 :
+  exists h u' r, parseHost hostile_upper default_cfg u0 h false = Ok u' r /\ (forall t, r <> 91 :: t) /\ ~ clean r.
+Proof.
+  exists [65], u0, [65]. split; [reflexivity|]. split; [intros t E; discriminate E|].
+  intros H. inversion H as [|? ? Hb _]. vm_compute in Hb. discriminate.
+Qed.
+
+(* without the bracket premise of Theorem 2 the result is an IPv6 literal *)
+Lemma domain_output_clean_bracket_needed :
+  exists h u' r, parseHost toy default_cfg u0 h false = Ok u' r /\ ~ clean r.
+Proof.
+  exists [91;58;58;49;93], u0, [91;58;58;49;93]. split; [reflexivity|].
+  intros H. inversion H as [|? ? Hb _]. vm_compute in Hb. discriminate.
+Qed.
+
+Example host_spelling_invariant_ex :
+  parseHost toy default_cfg u0 h_ex false = parseHost toy default_cfg u0 h_ex2 false.
+Proof.
+  apply (host_spelling_invariant toy default_cfg eq_refl eq_refl eq_refl eq_refl toy_H2 u0 h_ex h_ex2).
+  - intros t E. discriminate E.
+  - intros t E. discriminate E.
+  - reflexivity.
+Qed.
+
+(* H2 is needed *)
+Lemma host_spelling_invariant_needs_H2 :
+  exists h1 h2, not_bracket h1 /\ not_bracket h2 /\
+    str_lower (DecodePercentEncoded default_cfg h1) = str_lower (DecodePercentEncoded default_cfg h2) /\
+    parseHost hostile_upper default_cfg u0 h1 false <> parseHost hostile_upper default_cfg u0 h2 false.
+Proof.
+  exists [65], [97]. split; [intros t E; discriminate E|]. split; [intros t E; discriminate E|].
+  split; [reflexivity|]. vm_compute. discriminate.
+Qed.
+
+(* Theorem 3 without the bracket premises is false: "[::1]" against "%5B::1]" *)
+Lemma host_spelling_invariant_bracket_refuted :
+  exists h1 h2, oracle_case_invariant toy /\
+    str_lower (DecodePercentEncoded default_cfg h1) = str_lower (DecodePercentEncoded default_cfg h2) /\
+    parseHost toy default_cfg u0 h1 false <> parseHost toy default_cfg u0 h2 false.
+Proof.
+  exists [91;58;58;49;93], [37;53;66;58;58;49;93]. split; [exact toy_H2|]. split; [reflexivity|].
+  vm_compute. discriminate.
+Qed.
+
+(* the unconditional escape law is false: "%4" ++ "1" against "%4" ++ "%31" *)
+Lemma pct_escape_unconditional_refuted :
+  exists a b z, b < 256 /\ b <> 37 /\
+    DecodePercentEncoded default_cfg (a ++ pct_byte b ++ z) <> DecodePercentEncoded default_cfg (a ++ b :: z).
+Proof. exists [37;52], 49, []. split; [reflexivity|]. split; [discriminate|]. vm_compute. discriminate. Qed.
+
+(* ... and so is escaping a "%" that starts an escape: "%2541" against "%41" *)
+Lemma pct_escape_percent_refuted :
+  exists a b z, no_pending a = true /\ b < 256 /\
+    DecodePercentEncoded default_cfg (a ++ pct_byte b ++ z) <> DecodePercentEncoded default_cfg (a ++ b :: z).
+Proof. exists [], 37, [52;49]. split; [reflexivity|]. split; [reflexivity|]. vm_compute. discriminate. Qed.
+
+Example pct_escape_invisible_ex :
+  DecodePercentEncoded default_cfg ([37;52;49;98] ++ pct_byte 233 ++ [99]) =
+  DecodePercentEncoded default_cfg ([37;52;49;98] ++ 233 :: [99]).
+Proof. apply pct_escape_invisible; [reflexivity|reflexivity|reflexivity|left; discriminate]. Qed.
+
+Example host_escape_mask_invariant_ex :
+  parseHost toy default_cfg u0 (esc [true;false;true] [65;46;98]) false = parseHost toy default_cfg u0 [65;46;98] false
+  /\ esc [true;false;true] [65;46;98] = [37;52;49;46;37;54;50].
+Proof.
+  split; [|reflexivity].
+  apply (host_escape_mask_invariant toy default_cfg eq_refl eq_refl eq_refl eq_refl toy_H2).
+  - repeat constructor.
+  - intros [H|[H|[H|[]]]]; discriminate H.
+  - intros t E. discriminate E.
+Qed.
+
+(* "LOCAL%48ost" *)
+Definition h_local : str := [76;79;67;65;76;37;52;56;111;115;116].
+Example file_localhost_parse_ex : parseHost toy default_cfg u0 h_local false = Ok u0 s_localhost.
+Proof. apply (file_localhost_parse toy default_cfg eq_refl eq_refl eq_refl eq_refl toy_H1). reflexivity. Qed.
+
+(* the machine in state FileHost, buffer "LOCAL%48ost", looking at the "/" of "file://LOCAL%48ost/" *)
+Definition inp_ex : list rune := decode ([102;105;108;101;58;47;47] ++ h_local ++ [47]).
+Definition m_ex : mstate := mk FileHost 17 false h_local false false false (set_scheme u0 s_file).
+Example file_localhost_empty_ex :
+  step toy default_cfg inp_ex None None m_ex =
+  Cont (mk PathStart 17 false [] false false false (set_host (set_scheme u0 s_file) (Some []))).
+Proof.
+  apply (file_localhost_empty toy default_cfg eq_refl eq_refl eq_refl eq_refl toy_H1 inp_ex None None m_ex);
+    reflexivity.
+Qed.
+
+Example lax_conservative_ex :
+  host_cfg_agree default_cfg opt_WithLaxHostParsing /\ c_lax default_cfg = false /\
+  parseHost toy opt_WithLaxHostParsing u0 h_ex false = Ok u0 r_ex.
+Proof.
+  split; [repeat split|]. split; [reflexivity|].
+  apply (lax_conservative toy default_cfg opt_WithLaxHostParsing); [repeat split|reflexivity|].
+  exact ascii_host_exact_ex.
+Qed.
+
+(* the converse fails, as intended: lax parsing accepts "a b" *)
+Lemma lax_accepts_more :
+  exists h u' r, parseHost toy opt_WithLaxHostParsing u0 h false = Ok u' r /\
+                 forall u'' r', parseHost toy default_cfg u0 h false <> Ok u'' r'.
+Proof.
+  exists [97;32;98], u0, [97;37;50;48;98]. split; [reflexivity|]. intros u'' r'. vm_compute. discriminate.
+Qed.
+
+(* Observation: on the fall-back path the wrapper does not apply its "empty result is a failure"
+   test; an oracle that errs and returns nothing turns an ASCII host into the empty host.
+   (Excluded by H1; recorded because the code's two paths differ.) *)
+Lemma fallback_skips_empty_check :
+  parseHost hostile_empty default_cfg u0 [97] false = Ok u0 [].
+Proof. reflexivity. Qed.
